@@ -5,13 +5,17 @@ package deflate
 
 import (
 	"compress/flate"
+	"errors"
 	"io"
 )
 
+var errWriterClosed = errors.New("flate: closed writer")
+
 type Writer struct {
-	err error
-	lc  LevelCompressor
-	w   *flate.Writer
+	err    error
+	lc     LevelCompressor
+	w      *flate.Writer
+	closed bool
 }
 
 func NewWriterwWith4KWindow(under io.Writer, level int) (w *Writer, err error) {
@@ -74,6 +78,9 @@ func (w *Writer) Write(data []byte) (n int, err error) {
 	if w.w != nil {
 		return w.w.Write(data)
 	}
+	if w.closed {
+		return 0, errWriterClosed
+	}
 	n = len(data)
 	var num int
 	for num < n {
@@ -92,6 +99,7 @@ func (w *Writer) Write(data []byte) (n int, err error) {
 
 func (w *Writer) Reset(under io.Writer) {
 	w.err = nil
+	w.closed = false
 	if w.w != nil {
 		w.w.Reset(under)
 		return
@@ -106,6 +114,9 @@ func (w *Writer) Flush() (err error) {
 	if w.w != nil {
 		return w.w.Flush()
 	}
+	if w.closed {
+		return errWriterClosed
+	}
 	return w.lc.Flush()
 }
 
@@ -116,5 +127,12 @@ func (w *Writer) Close() (err error) {
 	if w.w != nil {
 		return w.w.Close()
 	}
-	return w.lc.Close()
+	if w.closed {
+		return nil
+	}
+	err = w.lc.Close()
+	if err == nil {
+		w.closed = true
+	}
+	return err
 }
